@@ -66,6 +66,8 @@ def generate(prop, seed, tier):
         spec = G.ring_chord_spec(g, 'small')
         if g.random() < 0.4:
             G.add_onehot_terminals(spec, g)
+    if not vit and g.random() < 0.05:
+        spec = G.perm_unit_spec(g, 'small')
     npres = g.randrange(3, 5)
     pres = [build.random_presentation(spec, g) for _ in range(npres)]
     cfgs = []
